@@ -210,7 +210,8 @@ def main(run: Run):
         run.require("csr.action.RW1C.elaborate::bit-set-by-its-set-input-AFTER-the-clear(setting-wins)",
                     "csr.action.RW1S.elaborate::bit-set-by-writing-a-one-AFTER-the-clear(setting-wins)",
                     "csr.action.RW1C.elaborate::nothing-else-per-bit", "csr.action.RW.elaborate::storage-takes-the-written-value",
-                    "csr.action.R.elaborate::read-data-passed-to-the-bus", "csr.action.W.elaborate::write-strobe-passed-from-the-bus")
+                    "csr.action.R.elaborate::read-data-passed-to-the-bus", "csr.action.W.elaborate::write-strobe-passed-from-the-bus",
+                    "csr.action._Reserved.elaborate::nothing-else-outside-the-bit-loop", "csr.action._Reserved.elaborate::no-submodule")
         run.assumptions += BASE_ASSUMPTIONS_L1 + [
             "field action contracts: Amaranth objects are recording stubs (which statements are issued, in which order, under which If, on which "
             "bit); Value.cast is the identity on bits; last-assignment-wins and 'an unassigned register bit keeps its value' are Amaranth's "
